@@ -139,6 +139,24 @@ def write_cases(draw, n_writes):
     pg.regs, pg.ongoing, pg.comb1, pg.comb2 = {}, {}, [], []
     pool = list(range(n_in, len(env)))
     targets = [pg.lhs(1, pool, depth=draw(INT(0, 3))) for _ in range(draw(INT(1, 3)))]
+    # a target in which an earlier part of a concatenation writes the very signal that a later part uses as its index or
+    # offset: the index must be taken from the value held BEFORE the assignment (as an assignment statement does)
+    sigs_ = [k for k in pool if kinds[k] == "sig"]
+    small = [k for k in sigs_ if not env[k][1] and 1 <= env[k][0] <= 2]
+    if small and len(sigs_) >= 2 and draw(INT(0, 2)) == 0:
+        x = PICK(draw, small)
+        ys = [k for k in sigs_ if k != x]
+        y = PICK(draw, ys)
+        form = draw(INT(0, 2))
+        if form == 0 and len(ys) >= 1:
+            n = 1 << env[x][0]
+            later = ["arr", [["sig", PICK(draw, ys)] for _ in range(n)], ["sig", x]]
+        elif form == 1:
+            later = ["bsel", ["sig", y], ["sig", x], draw(INT(1, 3))]
+        else:
+            later = ["wsel", ["sig", y], ["sig", x], draw(INT(1, 2))]
+        # parts must not address one bit twice: the array alternatives / part-select base exclude x itself
+        targets.append(["cat", [["sig", x], later]] if draw(BOOL) else ["cat", [later, ["sig", x]]])
     writes = []
     for _ in range(n_writes):
         ins = [draw(value_of_shape(*env[i])) for i in range(n_in)]
@@ -252,6 +270,16 @@ def write_body(ctx, case):
     nd = max(nest_depth(t) for t in targets)
     has_row = any(isinstance(kinds[i], list) for t in targets for i in R.lhs_signals(t))
     keys = [f"write:nest{min(nd, 3)}"] + ["wlhs:" + t[0] for t in targets]
+    def self_indexed(t):
+        if t[0] != "cat" or len(t[1]) != 2:
+            return False
+        a, b = t[1]
+        for first, later in ((a, b), (b, a)):
+            if first[0] == "sig" and later[0] in ("arr", "bsel", "wsel") and later[2] == first:
+                return True
+        return False
+    if any(self_indexed(t) for t in targets):
+        keys.append("write:index-written-by-same-assignment")
     if outside[0]:
         keys.append("write:outside-target")
     if has_row:
@@ -360,4 +388,4 @@ def parts(tier):
 
 REQUIRED = ["read:zero-width-operand", "read-sweep:probe", "read:depth3", "write:nest2", "write:nest3",
             "write:outside-target", "write:memory-row", "write:negative-value", "wlhs:cat", "wlhs:bsel",
-            "wlhs:wsel", "wlhs:arr", "wlhs:slice", "wlhs:u", "castable:enum"]
+            "wlhs:wsel", "wlhs:arr", "wlhs:slice", "wlhs:u", "castable:enum", "write:index-written-by-same-assignment"]
